@@ -61,6 +61,7 @@ RULES = {
     "R11": "`crate::a::b::X` / `super::X` / `Self::` path prefixes stripped or renamed for single-file assembly",
     "R14": "from_be_bytes/to_be_bytes -> stub with arithmetic spec",
     "R27": "lock sequentialisation: `if let Ok([mut] G) = self.F.write()/read() {` -> `if lock_ok() { let G = &[mut] self.F;` and `&self` -> `&mut self` (std RwLock: write() is exclusive, read() is shared; a poisoned lock is the nondeterministic `lock_ok() == false`; the field type `Arc<RwLock<T>>` is declared as `T` in the overlay)",
+    "R29": "`for x in f(..) {` over an owned Vec of Copy elements -> `let v = f(..); let mut i = 0; while i < v.len() { let x = v[i]; i += 1; ..` (element taken and index advanced first, so `continue` is harmless)",
     "G1": "match-arm guard `P if C => B` -> `P => { if C { B } else { E } }` with E (what the later arms do for P) given in the overlay; works around a Verus crash on guards reading mutable locals",
     "A1": "closure annotated with parameter types / ensures; body wrapped in braces verbatim",
     "S": "overlay substitution at an exact text anchor (reason given in overlay)",
@@ -1165,6 +1166,20 @@ def build_item(cur, log):
             ed.replace(toks[lk].start, toks[last].end, f"let mut {kv} = {hi_e}; while {kv} > {lo_e}")
             ed.insert(toks[lo_].end, f" {kv} -= 1; let {v} = {kv};")
             log.append(("R4", where, hdr.strip()))
+    if "R29" in rules:
+        # `for x in E {` where E is a call returning an owned Vec of Copy elements -> ascending index loop that takes the element
+        # and advances the index FIRST, so that a `continue` in the body (which Verus for-loops do not accept) is harmless
+        for n_, (lk, lo_, lc_) in enumerate(loops):
+            if toks[lk].text != "for": continue
+            hdr = text[toks[lk].start:toks[lo_].start]
+            m = re.match(r"for\s+(\w+)\s+in\s+(\w[\w:\.]*\(.*\))\s*$", hdr, re.S)
+            if not m or ".iter()" in m.group(2) or ".rev()" in m.group(2) or ".enumerate()" in m.group(2): continue
+            v, e_ = m.group(1), " ".join(m.group(2).split())
+            vv, kv = f"v__{n_}", f"i__{n_}"
+            last = prev_code(toks, lo_)
+            ed.replace(toks[lk].start, toks[last].end, f"let {vv} = {e_}; let mut {kv}: usize = 0; while {kv} < {vv}.len()")
+            ed.insert(toks[lo_].end, f" let {v} = {vv}[{kv}]; {kv} += 1;")
+            log.append(("R29", where, " ".join(hdr.split())))
     for x in secs:
         if x.kind in ("loop", "loop_begin", "loop_end", "after", "before"):
             if x.arg.startswith("~"):
